@@ -405,7 +405,7 @@ func (c *channel) asyncWrite(ctx context.Context, p []byte, clone bool) (int64, 
 		case <-ctx.Done():
 			return 0, ctx.Err()
 		case <-c.ctx.Done():
-			return 0, c.closeErr
+			return 0, c.doneErr()
 		case c.writeQueue <- packet:
 			// write queue
 		}
@@ -414,7 +414,7 @@ func (c *channel) asyncWrite(ctx context.Context, p []byte, clone bool) (int64, 
 		case <-ctx.Done():
 			return 0, ctx.Err()
 		case <-c.ctx.Done():
-			return 0, c.closeErr
+			return 0, c.doneErr()
 		case c.writeQueue <- packet:
 			// write queue
 		default:
@@ -454,7 +454,7 @@ func (c *channel) asyncWritev(ctx context.Context, p [][]byte) (int64, error) {
 		case <-ctx.Done():
 			return 0, ctx.Err()
 		case <-c.ctx.Done():
-			return 0, c.closeErr
+			return 0, c.doneErr()
 		case c.writeQueue <- packet:
 			// write queue
 		}
@@ -463,7 +463,7 @@ func (c *channel) asyncWritev(ctx context.Context, p [][]byte) (int64, error) {
 		case <-ctx.Done():
 			return 0, ctx.Err()
 		case <-c.ctx.Done():
-			return 0, c.closeErr
+			return 0, c.doneErr()
 		case c.writeQueue <- packet:
 			// write queue
 		default:
@@ -476,6 +476,16 @@ func (c *channel) asyncWritev(ctx context.Context, p [][]byte) (int64, error) {
 		c.executor.Exec(c.writeOnce)
 	}
 	return dataLen, nil
+}
+
+// doneErr is the error of a write that found the channel context done: the close reason, or - when the
+// context was cancelled from outside (parent context) before Close ran - the context's own error.
+// a write must never report success for a payload it did not accept.
+func (c *channel) doneErr() error {
+	if nil != c.closeErr {
+		return c.closeErr
+	}
+	return c.ctx.Err()
 }
 
 // IsActive return true if the Channel is active and so connected
